@@ -562,15 +562,18 @@ def _rebinds(ci: ClassInfo, attr_names: Set[str]) -> List[Tuple[str, ast.AST]]:
     return out
 
 
-def _check_state(rep: Report, m) -> None:
+def check_caches(rep: Report, rc: str, m, modules: Optional[Tuple[str, ...]] = None) -> int:
+    """No functools cache whose key (incl. self) is an object with an equality coarser than its state; returns the number of cached functions seen."""
     prog = m.prog
-    rc = rep.rule("C17.c", "no state leaks across assets or runs: caches, class-level and module-level containers, the per-asset engine, shared method plugins", floor=12)
-    # (1) functools caches
+    n = 0
     for fi in prog.iter_functions():
+        if modules is not None and fi.module not in modules:
+            continue
         decos = [unparse(d) for d in fi.node.decorator_list]
         cached = [d for d in decos if d.split("(")[0].split(".")[-1] in ("lru_cache", "cache", "cached_property", "memoize")]
         if not cached:
             continue
+        n += 1
         from ..norm import ann_to_type, class_of
 
         why = None
@@ -587,9 +590,6 @@ def _check_state(rep: Report, m) -> None:
             if w:
                 why = f"parameter '{p.arg}' is a {pc.name}: {w}"
                 break
-            if i == 0 and fi.cls is not None and not fi.is_staticmethod and "cached_property" not in cached[0]:
-                if _eq_fields(prog, pc) is None:
-                    continue
         rep.check(
             why is None,
             rc,
@@ -600,6 +600,14 @@ def _check_state(rep: Report, m) -> None:
             "so an asset's results depend on which assets were processed before it",
             loc(fi.node),
         )
+    return n
+
+
+def _check_state(rep: Report, m) -> None:
+    prog = m.prog
+    rc = rep.rule("C17.c", "no state leaks across assets or runs: caches, class-level and module-level containers, the per-asset engine, shared method plugins", floor=12)
+    # (1) functools caches
+    check_caches(rep, rc, m)
     # (2) class-level mutable containers
     for ci in prog.classes.values():
         if ci.is_enum() or ci.is_namedtuple():
